@@ -1086,6 +1086,155 @@ def sql_execute(ctx, args, ci, dt):
     return err(Opaque('rusqlite::Error'))
 
 
+# ------------------------------------------------------------------------------ format!() (1.9x template lowering)
+def fmt_arg_new(ctx, args, ci, dt):
+    return Opaque('fmtarg', (ci.method, deref(args[0])))
+
+
+def fmt_args_new(ctx, args, ci, dt):
+    tmpl = deref(args[0])
+    arr = deref(args[1]) if len(args) > 1 else None
+    items = []
+    if arr is not None:
+        items = [c.v for c in ctx.elems_of(arr)]
+    return Opaque('fmtargs', (tmpl.lit, items))
+
+
+def fmt_args_from_str(ctx, args, ci, dt):
+    sv = deref(args[0])
+    return Opaque('fmtargs', (None, [sv]))
+
+
+def display_of(ctx, v):
+    """Display rendering of a value as python bytes, or None if not concrete"""
+    v = deref(v)
+    if isinstance(v, S):
+        return v.lit
+    if isinstance(v, Int):
+        return str(v.v).encode() if v.concrete else None
+    if isinstance(v, bool):
+        return b'true' if v else b'false'
+    return None
+
+
+def fmt_format(ctx, args, ci, dt):
+    a = args[0]
+    tmpl, items = a.data
+    if tmpl is None:
+        sv = items[0]
+        return S(lit=sv.lit, atom=sv.atom, seq=sv.seq, text=True)
+    out = b''
+    i = 0
+    nxt = 0
+    ok_ = True
+    while i < len(tmpl):
+        b = tmpl[i]
+        i += 1
+        if b == 0:
+            break
+        if b < 0x80:
+            out += tmpl[i:i + b]
+            i += b
+        elif b == 0x80:
+            n = tmpl[i] | (tmpl[i + 1] << 8)
+            i += 2
+            out += tmpl[i:i + n]
+            i += n
+        elif b >= 0xC0:
+            opts = b & 0x3f
+            if opts & 1:
+                i += 4
+            if opts & 2:
+                i += 2
+            if opts & 4:
+                i += 2
+            if opts & 8:
+                idx = tmpl[i] | (tmpl[i + 1] << 8)
+                i += 2
+            else:
+                idx = nxt
+                nxt += 1
+            if idx >= len(items):
+                raise ctx_unsupported('format template argument index')
+            kind, val = items[idx].data
+            r = display_of(ctx, val) if kind == 'new_display' else None
+            if r is None:
+                ok_ = False
+            else:
+                out += r
+        else:
+            raise ctx_unsupported('format template byte 0x%x' % b)
+    if ok_:
+        return S(lit=out, text=True)
+    return S(label=('formatted-text',), text=True)
+
+
+def int_to_string(ctx, args, ci, dt):
+    v = deref(args[0])
+    if v.concrete:
+        return S(lit=str(v.v), text=True)
+    return S(label=('int-text', v), text=True)
+
+
+def opaque_to_string(ctx, args, ci, dt):
+    return S(label=('display-text',), text=True)
+
+
+def str_parse(ctx, args, ci, dt):
+    sv = deref(args[0])
+    g = ci.generics
+    t = (g[3:-1] if g.startswith('::<') else g[1:-1]).strip()
+    if sv.lit is None or t not in INT_TYPES:
+        raise ctx_unsupported('parse::<%s> of %r' % (t, sv))
+    try:
+        n = int(sv.lit.decode())
+        b, sg = INT_TYPES[t]
+        lo, hi = (-(1 << (b - 1)), (1 << (b - 1)) - 1) if sg else (0, (1 << b) - 1)
+        if not (lo <= n <= hi) or (sv.lit[:1] == b'-' and not sg):
+            raise ValueError
+        return ok(mk_int(t, n))
+    except ValueError:
+        return err(Opaque('ParseIntError'))
+
+
+def str_to_lowercase(ctx, args, ci, dt):
+    sv = deref(args[0])
+    if sv.lit is None:
+        raise ctx_unsupported('to_lowercase of symbolic string')
+    return S(lit=sv.lit.decode().lower(), text=True)
+
+
+def hm_drain(ctx, args, ci, dt):
+    m = deref(args[0])
+    items = [tup(e[0], e[1].v) for e in m.entries] if not m.is_set else [e[0] for e in m.entries]
+    m.entries.clear()
+    return IterV(items, 'map')
+
+
+def system_fields(ctx, args, ci, dt):
+    """lazy_static SYSTEM_FIELDS: the key set is read from the source on every run"""
+    import re as _re
+    cached = getattr(ctx, '_system_fields', None)
+    if cached is None:
+        raw = None
+        for rel, (r, src) in ctx.src.files.items():
+            if rel.endswith('data_model_parser.rs'):
+                raw = src
+        i = raw.index('SYSTEM_FIELDS')
+        j = raw.index('};', i)
+        names = _re.findall(r'fields\.insert\(\s*(\w+)\.to_string\(\)', raw[i:j])
+        m = MapV()
+        for n in names:
+            sc = ctx.index.simple_consts.get(n)
+            ty, val = next(iter(sc))
+            m.entries.append([S(lit=val.strip('"'), text=True), Cell(Opaque('system-field', n))])
+        if not m.entries:
+            raise ctx_unsupported('SYSTEM_FIELDS not found in source')
+        cached = m
+        ctx._system_fields = m
+    return Ref(Cell(cached))
+
+
 def m_panic(ctx, args, ci, dt):
     msg = args[0].lit.decode() if args and isinstance(args[0], S) and args[0].lit is not None else 'panic'
     raise panic(msg)
@@ -1294,6 +1443,22 @@ def install(ctx):
     M['Connection::execute'] = sql_execute
     M['<CachedStatement as Deref>::deref'] = into_identity
     M['<CachedStatement as DerefMut>::deref_mut'] = into_identity
+    M['Argument::new_display'] = fmt_arg_new
+    M['Argument::new_debug'] = fmt_arg_new
+    M['Argument::new_lower_hex'] = fmt_arg_new
+    M['Arguments::new'] = fmt_args_new
+    M['Arguments::from_str'] = fmt_args_from_str
+    M['fmt::format'] = fmt_format
+    M['std::fmt::format'] = fmt_format
+    M['must_use'] = into_identity
+    for t in ['usize', 'i64', 'u64', 'u32', 'i32']:
+        M['<%s as ToString>::to_string' % t] = int_to_string
+    M['<FieldType as ToString>::to_string'] = opaque_to_string
+    M['str::parse'] = str_parse
+    M['str::to_lowercase'] = str_to_lowercase
+    M['HashMap::drain'] = hm_drain
+    M['<SYSTEM_FIELDS as Deref>::deref'] = system_fields
+    M['<&String as PartialEq>::eq'] = str_eq
     M['panic'] = m_panic
     M['panicking::panic'] = m_panic
     M['panic_fmt'] = m_panic_fmt
